@@ -50,12 +50,13 @@ def evaluate(case):
     init, mu, nf, sgn = TARGETS[case["target"]]
     sv, xif = case["sv"], case["xif"]
     mus = [mu] + [mu * math.sqrt(1.0 + sgn * e) for e in EPS]
+    co = case.get("co")  # a further target far beyond, computed in the same EKO (first or last in the list)
     cfg = dict(
         order=[case["qcd"], 0],
         method=case.get("method", "truncated"),
         masses=M,
         init=list(init),
-        mugrid=[[m, nf] for m in mus],
+        mugrid=([[60.0, 5]] if co == "first" else []) + [[m, nf] for m in mus] + ([[60.0, 5]] if co == "last" else []),
         sv=sv,
         xif=xif,
         iterations=4,
@@ -77,6 +78,8 @@ def evaluate(case):
     except Exception as e:  # noqa
         res.fail(f"solve/crash/{type(e).__name__}", f"{where}: {type(e).__name__}: {str(e)[:200]}")
         return res
+    if co:
+        out = {k: v for k, v in out.items() if not (abs(k[0] - 3600.0) < 1e-6 and k[1] == 5)}
     byscale = sorted(out.items(), key=lambda kv: abs(kv[0][0] - mu**2))
     if len(byscale) != 3:
         res.fail("solve/points", f"{where}: expected 3 evolution points, got {sorted(out)}")
@@ -111,6 +114,14 @@ def run(ctx):
                 for t in tnames:
                     cases.append(dict(seam="s2", qcd=qcd, sv=sv, xif=xif, target=t, method="iterate-exact"))
                     cases.append(dict(seam="s2", qcd=qcd, sv=sv, xif=xif, target=t, extra=dict(polarized=True)))
+    # the boundary targets computed together with a target beyond the matching scales (shared segments)
+    for qcd in ((1, 2) if not ctx.thorough() else (1, 2, 3)):
+        for sv, xif in SV:
+            if sv != "expanded" and not ctx.thorough():
+                continue
+            for t in ("mc-lower-from-below", "mc-upper-from-below", "mb-lower", "mb-upper", "init"):
+                for co in ("first", "last"):
+                    cases.append(dict(seam="s2", qcd=qcd, sv=sv, xif=xif, target=t, co=co))
     for qcd, sv, xif, t in (
         (1, None, 1.0, "mb-lower"),
         (2, "expanded", 2.0, "mb-lower"),
